@@ -939,6 +939,7 @@ func closeSubs(subs []*subscriptionState) {
 func (s *subscriptionState) done() {
 	s.writeMu.Lock()
 	defer s.writeMu.Unlock()
+	verifYield("sub.completed.beforeClose", s.id)
 	close(s.completed)
 }
 
